@@ -36,14 +36,15 @@ void leaf(unsigned kind, std::vector<uint8_t>& out, unsigned* levels) {
     default: out.insert(out.end(), {0x9f, 0xff}); *levels = 1; break;                 // empty indefinite array: one level
   }
 }
-void build_chain(const std::vector<uint64_t>& kinds, size_t depth, unsigned leaf_kind, std::vector<uint8_t>& out, unsigned* total_levels) {
+}  // namespace
+unsigned nest_leaf_levels(unsigned leaf_kind) { return (leaf_kind % 6) >= 3 ? 1 : 0; }
+void nest_chain(const std::vector<uint64_t>& kinds, size_t depth, unsigned leaf_kind, std::vector<uint8_t>& out, unsigned* total_levels) {
   std::vector<uint8_t> tail;
   for (size_t i = 0; i < depth; i++) { Lvl l = level((unsigned)kinds[i % kinds.size()]); out.insert(out.end(), l.pre.begin(), l.pre.end()); }
   unsigned lv = 0; leaf(leaf_kind, out, &lv);
   for (size_t i = depth; i-- > 0;) { Lvl l = level((unsigned)kinds[i % kinds.size()]); out.insert(out.end(), l.post.begin(), l.post.end()); }
   *total_levels = (unsigned)depth + lv;
 }
-}  // namespace
 
 J gen_nest(const std::string& prop, uint64_t run_seed, const std::string& tier) {
   (void)prop; (void)tier;
@@ -77,11 +78,11 @@ void exec_nest(const J& plan) {
   if (kinds.empty()) kinds.push_back(0);
   uint64_t depth = plan.getu("depth", 1); if (depth > 40000) depth = 40000;
   unsigned leaf_kind = (unsigned)plan.getu("leaf");
-  std::vector<uint8_t> stream; unsigned levels = 0; build_chain(kinds, (size_t)depth, leaf_kind, stream, &levels);
+  std::vector<uint8_t> stream; unsigned levels = 0; nest_chain(kinds, (size_t)depth, leaf_kind, stream, &levels);
   // --- calibration: the same kinds nested exactly as deep as the limit allows, on a generous stack: how much native stack does the accepted pipeline use on this build?
   unsigned leaf_levels = levels - (unsigned)depth;
   size_t cal_depth = L > leaf_levels ? L - leaf_levels : 0;
-  std::vector<uint8_t> cal; unsigned cal_levels = 0; build_chain(kinds, cal_depth, leaf_kind, cal, &cal_levels);
+  std::vector<uint8_t> cal; unsigned cal_levels = 0; nest_chain(kinds, cal_depth, leaf_kind, cal, &cal_levels);
   size_t used_max = 0;
   LoadOpts co; co.L = L; co.deep_post = true; co.where = "calibration chain at depth L";
   co.runner = [&](const std::function<void()>& f) { size_t used = 0; prot_set_ctx("calibration pipeline at depth L (generous stack)"); sched_run_on_stack(((size_t)512 << 10) + (size_t)4096 * L, f, &used); if (used > used_max) used_max = used; };
